@@ -172,10 +172,20 @@ func (r *Run) OnClose(f func()) { r.closers = append(r.closers, f) }
 
 // Sleep advances the fake clock (driver goroutine only).
 func (r *Run) Sleep(d time.Duration) {
-	if d > 0 {
-		time.Sleep(d)
+	if d <= 0 {
+		return
 	}
+	// the bubble clock starts in 2000 and time.Time/nanotime overflow in 2262: keep every run well inside
+	if time.Since(r.Start)+d > Horizon || time.Since(r.Start)+d < 0 {
+		r.res.Discarded = true
+		r.res.Stats["probe.run_ended_at_time_horizon"]++
+		panic(abortRun{})
+	}
+	time.Sleep(d)
 }
+
+// Horizon is the maximum simulated time one run may cover.
+const Horizon = 220 * 365 * 24 * time.Hour
 
 // Exec runs one engine run in a fresh bubble. tape==nil means record from seed.
 // Spec identifies one run.
